@@ -191,12 +191,19 @@ def gen_fit(rng):
             v = spec["ptrue"][i]
             spec["limited"][names[i]] = [round(v - 5 * abs(v) - 5, 3), round(v + 5 * abs(v) + 5, 3)]
     spec["set"] = [round(v * rng.choice([0.9, 1.0, 1.1]), 4) for v in spec["ptrue"]] if rng.random() < 0.6 else None
+    # documented cost function option handed over as an object (low rate: the space behind open finding F-C09-13 stays explored)
+    spec["nodet"] = t in ("xy", "indexed") and spec["cost"].startswith("chi2") and rng.random() < 0.06
     return spec
 
 
 def build_fit(spec):
     k = K()
     t = spec["type"]
+    if spec.get("nodet"):
+        spec = dict(spec)
+        fcls = {"xy": k.XYFit, "indexed": k.IndexedFit}[t]
+        ccls, ckw = fcls._STRING_TO_COST_FUNCTION[spec["cost"]]
+        spec["cost"] = ccls(**dict(ckw, add_determinant_cost=False))
     if t == "xy":
         fit = k.XYFit([list(spec["x"]), list(spec["y"])], iolib.XY[spec["model"]][0], cost_function=spec["cost"], minimizer=spec["minimizer"])
     elif t == "indexed":
@@ -429,6 +436,8 @@ class IOMachine(Machine):
         for op in case["ops"]:
             sp = op[2]
             kinds.append("%s:%s" % (op[1], sp.get("kind") or sp.get("type")))
+            if sp.get("nodet"):
+                kinds.append("opt:add_determinant_cost=False")
         return ";".join([v.get("oracle", "?"), v.get("observable", "?")] + sorted(set(kinds)) + list((v.get("extra") or {}).get("tags", [])))
 
     # ------------------------------------------------------------------ execution
